@@ -8,6 +8,7 @@ import (
 	"runtime"
 	"sort"
 	"strconv"
+	"sync"
 	"time"
 
 	. "verif/simtypes"
@@ -649,7 +650,23 @@ func runCheck(prop, tier string) int {
 		}
 	}
 
+	var exhaustiveN int
+	var exhaustiveFs []found
+	if prop == "C18" {
+		ml, rl := 3, 4
+		if tier == "thorough" {
+			ml, rl = 3, 5
+		}
+		n, efs, err := ck.runExhaustiveBitlist(ml, rl)
+		if err != nil {
+			fmt.Fprintln(os.Stderr, "verifctl: harness trouble:", err)
+			return 2
+		}
+		exhaustiveN, exhaustiveFs = n, efs
+		fmt.Printf("bounded exhaustive complement: %d BitList histories (all sequences of <= %d operations over %d concrete operations, <= %d over 12), %d divergences\n", n, ml, len(smallAlphabet()), rl, len(efs))
+	}
 	fs, err := ck.explore(scs)
+	fs = append(exhaustiveFs, fs...)
 	if err != nil {
 		fmt.Fprintln(os.Stderr, "verifctl: harness trouble:", err)
 		ck.writeEvidence(0, rule, map[string]any{"aborted": err.Error()})
@@ -699,7 +716,12 @@ func runCheck(prop, tier string) int {
 		fmt.Printf("violation class=%s fn=%s what=%s: %s\n", f.v.Class, f.v.Fn, f.v.What, f.v.Detail)
 		fmt.Printf("VIOLATION property=%s replay=%s\n", prop, path)
 	}
-	if err := ck.writeEvidence(nviol, rule, nil); err != nil {
+	var extra map[string]any
+	if prop == "C18" {
+		extra = map[string]any{"exhaustive_small_histories": exhaustiveN,
+			"exhaustive_small_histories_note": "complement to the seeded search: every operation sequence up to the stated length over a fixed alphabet of concrete operations around the 32-bit word boundary, run natively against the same model (not counted in evaluations)"}
+	}
+	if err := ck.writeEvidence(nviol, rule, extra); err != nil {
 		fmt.Fprintln(os.Stderr, "verifctl: evidence:", err)
 		return 2
 	}
@@ -732,4 +754,111 @@ func replayDir() string {
 	}
 	os.MkdirAll(d, 0o755)
 	return d
+}
+
+// ---- C18: bounded exhaustive complement -----------------------------------------
+
+// smallAlphabet is a fixed set of concrete BitList operations around the word
+// boundary. All sequences over it up to a small length are run natively
+// (no_sim) against the same model: the property's quantifier asks for "all
+// operation sequences up to a bound exhaustively"; this is that bound, the
+// seeded search covers what lies beyond it.
+func smallAlphabet() []BitOp {
+	return []BitOp{
+		{Op: "new", A: 0}, {Op: "new", A: 1}, {Op: "new", A: 31}, {Op: "new", A: 32}, {Op: "new", A: 33},
+		{Op: "addbit", Bs: []bool{true}}, {Op: "addbit", Bs: []bool{false}}, {Op: "addbit", Bs: []bool{true, false, true}},
+		{Op: "addbits", A: 5, N: 3}, {Op: "addbits", A: -1, N: 33}, {Op: "addbits", A: 1, N: 0}, {Op: "addbits", A: 0xABCDE, N: 20},
+		{Op: "addbyte", A: 0xA5}, {Op: "addbyte", A: 0},
+		{Op: "set", A: 0, V: true}, {Op: "set", A: 0, V: false}, {Op: "set", A: 31, V: true}, {Op: "set", A: 32, V: true},
+		{Op: "get", A: 0}, {Op: "get", A: 32},
+		{Op: "bytes"}, {Op: "iter"}, {Op: "itern", A: 2, N: 7}, {Op: "len"},
+	}
+}
+
+func exhaustiveBitHistories(maxLen int, reducedLen int) []Call {
+	alpha := smallAlphabet()
+	reduced := []int{1, 3, 5, 7, 9, 12, 14, 16, 17, 20, 21, 22}
+	var out []Call
+	var rec func(prefix []BitOp, depth, limit int, idxs []int)
+	rec = func(prefix []BitOp, depth, limit int, idxs []int) {
+		if depth > 0 {
+			ops := append(append([]BitOp(nil), prefix...), BitOp{Op: "bytes"}, BitOp{Op: "iter"})
+			out = append(out, Call{Fn: "bitlist", I1: len(out), Ops: ops})
+		}
+		if depth == limit {
+			return
+		}
+		for _, i := range idxs {
+			rec(append(prefix, alpha[i]), depth+1, limit, idxs)
+		}
+	}
+	all := make([]int, len(alpha))
+	for i := range all {
+		all[i] = i
+	}
+	rec(nil, 0, maxLen, all)
+	n1 := len(out)
+	if reducedLen > maxLen {
+		// longer sequences over a reduced alphabet; skip those already produced (length <= maxLen)
+		var tmp []Call
+		save := out
+		out = nil
+		rec(nil, 0, reducedLen, reduced)
+		for _, c := range out {
+			if len(c.Ops)-2 > maxLen {
+				tmp = append(tmp, c)
+			}
+		}
+		out = append(save, tmp...)
+	}
+	_ = n1
+	for i := range out {
+		out[i].I1 = i
+	}
+	return out
+}
+
+// runExhaustiveBitlist executes the bounded enumeration natively and returns violations.
+func (ck *Checker) runExhaustiveBitlist(maxLen, reducedLen int) (int, []found, error) {
+	hs := exhaustiveBitHistories(maxLen, reducedLen)
+	const per = 1500
+	var mu sync.Mutex
+	var fs []found
+	var firstErr error
+	var wg sync.WaitGroup
+	for at := 0; at < len(hs); at += per {
+		end := at + per
+		if end > len(hs) {
+			end = len(hs)
+		}
+		chunk := hs[at:end]
+		wg.Add(1)
+		go func() {
+			defer wg.Done()
+			seg := Segment{Kind: "calls", NoSim: true, Phases: [][][]Call{{chunk}}}
+			out := ck.ex.run(&seg, false)
+			mu.Lock()
+			defer mu.Unlock()
+			if out.Res == nil || len(out.Res.Results) == 0 {
+				if firstErr == nil {
+					firstErr = herr("exhaustive BitList run produced no result (exit %d): %s", out.ExitCode, tail(out.Stderr, 1500))
+				}
+				return
+			}
+			for i, cr := range out.Res.Results[0][0] {
+				if cr.Class == "diverged" || cr.Class == "panic" {
+					c := chunk[i]
+					sc := &Scenario{ID: 2_000_000 + c.I1, Seed: uint64(c.I1), Property: "C18", Note: "bounded exhaustive enumeration",
+						Segments: []Segment{{Kind: "calls", Seed: 1, Policy: Policy{Name: "fifo"}, Phases: [][][]Call{{{c}}}}}}
+					v := Violation{Class: "model-divergence", Fn: "bitlist", Detail: cr.Err}
+					if cr.Class == "panic" {
+						v = Violation{Class: "panic", Fn: "bitlist", Detail: "BitList history panicked: " + cr.Panic}
+					}
+					fs = append(fs, found{sc, v, nil})
+				}
+			}
+		}()
+	}
+	wg.Wait()
+	return len(hs), fs, firstErr
 }
